@@ -12,7 +12,7 @@ CONSTANTS
   MaxInstr = 8
   MaxTx = 1
   SupplyCap = 10
-  DataVals = {1, 2}
+  DataVals = {7, 8}
   InitLedgers <- InitFG
   FailOdds = 4
   EndOdds = 3
